@@ -34,6 +34,8 @@ func main() {
 	switch os.Args[1] {
 	case "check":
 		os.Exit(cmdCheck(os.Args[2:]))
+	case "checkall":
+		os.Exit(cmdCheckAll(os.Args[2:]))
 	case "explain":
 		os.Exit(cmdExplain(os.Args[2:]))
 	case "list":
@@ -88,6 +90,63 @@ func cmdCheck(args []string) int {
 		return 2
 	}
 	return runProperty(p, tier, *repo, *verif, seed)
+}
+
+// cmdCheckAll (development aid used by tools/): load the tree once and run the quick tier of the listed
+// properties (default all) on it, one after the other, with the per-property state reset in between. The
+// registered commands always use `check`, one process per property.
+var dbgHook func(w *World)
+
+func cmdCheckAll(args []string) int {
+	fs := flag.NewFlagSet("checkall", flag.ExitOnError)
+	repo := fs.String("repo", "/repo", "repository working tree")
+	verif := fs.String("verif", "/verif", "verification directory")
+	props := fs.String("props", "", "comma separated property ids (default: all)")
+	fs.Parse(args)
+	var ids []string
+	if *props != "" {
+		ids = strings.Split(*props, ",")
+	} else {
+		for id := range registry {
+			ids = append(ids, id)
+		}
+	}
+	sort.Strings(ids)
+	w, err := Load(*repo, []string{"./..."}, nil)
+	if err != nil {
+		fmt.Printf("ERROR %v\n", err)
+		return 2
+	}
+	w.GOOS = "linux/amd64"
+	if dbgHook != nil {
+		dbgHook(w)
+	}
+	worst := 0
+	for _, id := range ids {
+		p := registry[id]
+		if p == nil {
+			fmt.Printf("ERROR unknown property %s\n", id)
+			return 2
+		}
+		code := func() (code int) {
+			started := time.Now()
+			defer func() {
+				if r := recover(); r != nil {
+					fmt.Printf("ERROR property=%s analysis panic: %v\n%s\n", p.ID, r, debug.Stack())
+					code = 2
+				}
+			}()
+			w.resetRuleState()
+			c := newCtx(w, p.ID, "quick")
+			globalRules(c)
+			p.Run(c)
+			return finish(c, p.Meta, *verif, started, 0)
+		}()
+		if code > worst {
+			worst = code
+		}
+	}
+	return worst
 }
 
 func runProperty(p *property, tier, repo, verif string, seed int64) (code int) {
